@@ -1,4 +1,5 @@
 import TrionModel.Lemmas.AsmRetry
+import TrionModel.Lemmas.SimpStableAll
 import TrionModel.Lemmas.AsmHist
 import TrionModel.Lemmas.AsmEnc
 import TrionModel.Spec.Layout
@@ -362,12 +363,12 @@ def EnvRel (num : Bytes → Nat) (t : Table) (e : Layout.Env) : Prop := ∀ n, e
 def TaskRel (num : Bytes → Nat) (enc : Encoder) (t₂ : Table) : Task → Layout.Task → Prop
   | .instr i g, lt =>
     g = false ∧ i.placed = true ∧ lt.addr = i.st.addr ∧ lt.len = ilen i.st.instr ∧
-    ∃ tpl args t₁ c, Table.Sub t₁ t₂ ∧ Table.NoDef t₁ ∧ (∀ a ∈ args, plainArg a = true) ∧
+    ∃ tpl args t₁ c, Table.Sub t₁ t₂ ∧ Table.NoDef t₁ ∧
       Front.assemble ⟨i.st.addr, tpl, 0, args⟩ (frontEval t₁) true = (i.st, .deferred c) ∧
       lt.deps = (instrDeps (Front.kinds tpl) args).map num ∧ lt.final = instrFinal enc t₂ i.st.addr tpl args
   | .data d g, lt =>
     g = false ∧ d.placed = true ∧ lt.addr = d.addr ∧ lt.len = d.du.size ∧
-    ∃ a t₁ n, Table.Sub t₁ t₂ ∧ Table.NoDef t₁ ∧ plainArg a = true ∧ evalIn t₁ a = .ok (.noSuch n d.arg) ∧
+    ∃ a t₁ n, Table.Sub t₁ t₂ ∧ Table.NoDef t₁ ∧ evalIn t₁ a = .ok (.noSuch n d.arg) ∧
       lt.deps = (idents a).map num ∧ lt.final = duFinal t₂ d.du a
   | .globalCopy .., _ => False
 
